@@ -86,6 +86,26 @@ func waitDone(done chan struct{}, d time.Duration) bool {
 	}
 }
 
+
+// runs the calls that begin after the close has returned; they must come back
+func afterGuarded(o *c15Obs, after func() []string) {
+	ch := make(chan []string, 1)
+	go func() {
+		defer func() {
+			if p := recover(); p != nil {
+				ch <- []string{"panic: " + fmt.Sprint(p)}
+			}
+		}()
+		ch <- after()
+	}()
+	select {
+	case r := <-ch:
+		o.AfterClose = r
+	case <-time.After(2 * time.Second):
+		o.Blocked, o.Detail = true, "a call that began after the close had returned never came back"
+	}
+}
+
 // user parked right after its closed check; Close completes; user released
 func c15Window(scenario, object, point string, mk func() (obj interface{}, user func(), closeFn func(), after func() []string)) c15Obs {
 	o := c15Obs{Scenario: scenario, Object: object, AfterClose: []string{}}
@@ -121,8 +141,8 @@ func c15Window(scenario, object, point string, mk func() (obj interface{}, user 
 		o.Panics++
 		o.Detail = "closer: " + *cpanic
 	}
-	if after != nil && closed {
-		o.AfterClose = after()
+	if after != nil && closed && !o.Blocked {
+		afterGuarded(&o, after)
 	}
 	return o
 }
@@ -477,7 +497,7 @@ func c15Preempt1(object, opName, side, point string, mk func() *c15Inst) (c15Obs
 		o.HandlerOther = int(atomic.LoadInt32(in.handlerOther))
 	}
 	if in.after != nil && !o.Blocked {
-		o.AfterClose = in.after()
+		afterGuarded(&o, in.after)
 	}
 	return o, true
 }
